@@ -109,6 +109,7 @@ def lns[T](
     best_solution, best_obj = current, current_obj
     best_iter = 0
 
+    iteration = 0
     for iteration in range(1, max_iter + 1):
         partial = destroy(current, rng)
         candidate = repair(partial, rng)
@@ -206,6 +207,7 @@ def alns[T](
     best_solution, best_obj = current, current_obj
     best_iter = 0
 
+    iteration = 0
     for iteration in range(1, max_iter + 1):
         d_idx = select_weighted(d_weights)
         r_idx = select_weighted(r_weights)
